@@ -59,21 +59,21 @@ def bez_case(ck, c, M=None, tag='plain'):
                 continue        # scale() goes through the power basis: coincident control points come back an ulp apart, the end derivative is rounding noise
             exp = ftan(unit(c[key]))
             got = seg.unit_tangent(t)
-            if abs(abs(got) - 1) > 1e-9 or abs(got - exp) > 1e-6:
+            if not (abs(abs(got) - 1) <= 1e-9) or not (abs(got - exp) <= 1e-6):
                 return bad('unit_tangent(%d)' % t, 'got %r, direction of travel %r' % (got, exp), exp, got)
             nr = seg.normal(t)
-            if abs(nr - (-1j) * got) > 1e-9:
+            if not (abs(nr - (-1j) * got) <= 1e-9):
                 return bad('normal(%d)' % t, 'normal %r is not -i * unit_tangent %r' % (nr, got), -1j * got, nr)
         d1 = complex(*c['d1half']) / 2.0 ** (n - 1)
         d2 = complex(*c['d2half']) / 2.0 ** max(n - 2, 0)
-        if abs(d1) > 0:
+        if not (abs(d1) <= 0):
             exp = ftan(d1 / abs(d1))
             got = seg.unit_tangent(0.5)
-            if abs(got - exp) > 1e-9:
+            if not (abs(got - exp) <= 1e-9):
                 return bad('unit_tangent(0.5)', 'got %r, derivative direction %r' % (got, exp), exp, got)
             kexp = abs(d1.real * d2.imag - d1.imag * d2.real) / abs(d1) ** 3 * fk
             kgot = seg.curvature(0.5)
-            if abs(kgot - kexp) > 1e-9 * max(1, kexp, fk):
+            if not (abs(kgot - kexp) <= 1e-9 * max(1, kexp, fk)):
                 return bad('curvature(0.5)', 'got %r, exact %r' % (kgot, kexp), kexp, kgot)
         # reversal
         rv = seg.reversed()
@@ -83,9 +83,9 @@ def bez_case(ck, c, M=None, tag='plain'):
             if tag.startswith('api.scaled') and t != 0.5:
                 continue
             a, b = rv.unit_tangent(1 - t), seg.unit_tangent(t)
-            if abs(a + b) > 1e-6:
+            if not (abs(a + b) <= 1e-6):
                 return bad('reversed.unit_tangent(%r)' % (1 - t), 'reversed tangent %r is not the opposite of %r' % (a, b), -b, a)
-        if abs(d1) > 0 and abs(rv.curvature(0.5) - seg.curvature(0.5)) > 1e-9 * max(1, seg.curvature(0.5), fk):
+        if not (abs(d1) <= 0) and not (abs(rv.curvature(0.5) - seg.curvature(0.5)) <= 1e-9 * max(1, seg.curvature(0.5), fk)):
             return bad('reversed.curvature(0.5)', 'curvature changes under reversal', seg.curvature(0.5), rv.curvature(0.5))
     except Exception as e:      # noqa
         return bad('raises-' + type(e).__name__, 'raised %r' % e, 'value', repr(e))
@@ -127,11 +127,11 @@ def arc_case(ck, c):
             ck.disagree(key='Arc.tangent/raises-' + type(e).__name__, site='svgpathtools/path.py:Arc', what='lattice arc %s raised %r' % (A, e), case={'arc': A},
                         expected='value', observed=repr(e), driver='arc')
             return
-        if abs(got - exp) > 1e-6 or abs(nr + 1j * got) > 1e-9:
+        if not (abs(got - exp) <= 1e-6) or not (abs(nr + 1j * got) <= 1e-9):
             ck.disagree(key='Arc.unit_tangent', site='svgpathtools/path.py:Arc.unit_tangent', what='lattice arc %s: unit_tangent(%r) = %r, along the sweep %r' % (A, t, got, exp),
                         case={'arc': A, 't': t}, expected=repr(exp), observed=repr(got), driver='arc')
             return
-        if abs(kgot - kexp) > 1e-6 * kexp:
+        if not (abs(kgot - kexp) <= 1e-6 * kexp):
             ck.disagree(key='Arc.curvature' + ('/circle' if rx == ry else ''), site='svgpathtools/path.py:segment_curvature', what='lattice arc %s: curvature(%r) = %r, exact %r' % (A, t, kgot, kexp),
                         case={'arc': A, 't': t}, expected=kexp, observed=kgot, driver='arc')
             return
@@ -160,7 +160,7 @@ def run(ck):
     for a, b in ((0j, 3 + 4j), (1 + 1j, 1 - 5j), (-2 + 0j, -7 + 0j)):
         ln = sp.Line(a, b)
         ck.case(fp=('line', a, b), nontrivial=True)
-        if abs(ln.unit_tangent(0.3) - (b - a) / abs(b - a)) > 1e-12 or ln.curvature(0.3) != 0 or abs(ln.normal(0.3) + 1j * ln.unit_tangent(0.3)) > 1e-12:
+        if not (abs(ln.unit_tangent(0.3) - (b - a) / abs(b - a)) <= 1e-12) or ln.curvature(0.3) != 0 or not (abs(ln.normal(0.3) + 1j * ln.unit_tangent(0.3)) <= 1e-12):
             ck.disagree(key='Line.tangent', site='svgpathtools/path.py:Line', what='line %r tangent/normal/curvature' % ln, case={'a': str(a), 'b': str(b)},
                         expected='direction, 0', observed=[str(ln.unit_tangent(0.3)), ln.curvature(0.3)], driver='line')
     st = {'n': 0}
